@@ -143,6 +143,9 @@ class Kinds:
             return REP_START if k in (RAW_START, REP_START) else REP
         if isinstance(e, ast.Call):
             fn = e.func
+            if isinstance(fn, ast.Name) and len(e.args) == 1 and self.rep_function(fn.id, f):
+                k = self.kind(e.args[0], f, depth + 1)
+                return REP_START if k in (RAW_START, REP_START) else REP
             if isinstance(fn, ast.Attribute):
                 if fn.attr == "__getitem__" and self._is_equivdb(fn.value, f) and len(e.args) == 1:
                     k = self.kind(e.args[0], f, depth + 1)
@@ -179,6 +182,32 @@ class Kinds:
         if isinstance(e, ast.IfExp):
             return join(self.kind(e.body, f, depth + 1), self.kind(e.orelse, f, depth + 1))
         return UNKNOWN
+
+    def rep_function(self, name: str, f: ast.AST) -> bool:
+        """`name` is a function defined inside f that maps a label to its representative: every
+        return is `<...>equivdb[param]`, or an entry of a local table that is only ever filled
+        with `<...>equivdb[<its key>]` (a call-local memo of find)."""
+        for n in ast.walk(f):
+            if isinstance(n, ast.FunctionDef) and n.name == name and n is not f:
+                ps = [a.arg for a in n.args.args]
+                if len(ps) != 1:
+                    return False
+                rets = [r for r in ast.walk(n) if isinstance(r, ast.Return) and r.value is not None]
+                if not rets:
+                    return False
+                for r in rets:
+                    v = r.value
+                    if isinstance(v, ast.Subscript) and self._is_equivdb(v.value, f) and norm(v.slice) == ps[0]:
+                        continue
+                    if isinstance(v, ast.Subscript) and isinstance(v.value, ast.Name) and norm(v.slice) == ps[0]:
+                        tab = v.value.id
+                        stores = [x for x in ast.walk(f) if isinstance(x, ast.Assign) and len(x.targets) == 1 and isinstance(x.targets[0], ast.Subscript)
+                                  and isinstance(x.targets[0].value, ast.Name) and x.targets[0].value.id == tab]
+                        if stores and all(isinstance(x.value, ast.Subscript) and self._is_equivdb(x.value.value, f) and norm(x.value.slice) == norm(x.targets[0].slice) for x in stores):
+                            continue
+                    return False
+                return True
+        return False
 
     def _is_equivdb(self, e: ast.AST, f: ast.AST) -> bool:
         if isinstance(e, ast.Attribute) and e.attr == "equivdb":
@@ -391,6 +420,12 @@ def _rep_sequences(f: ast.AST, K: Kinds) -> List[ast.AST]:
             a0 = n.args[0]
             if isinstance(a0, ast.Attribute) and a0.attr == "__getitem__" and K._is_equivdb(a0.value, f):
                 out.append(n)
+            elif isinstance(a0, ast.Name) and K.rep_function(a0.id, f):
+                out.append(n)
+    for n in walk_local(f):
+        if isinstance(n, (ast.GeneratorExp, ast.ListComp)) and isinstance(n.elt, ast.Call) and isinstance(n.elt.func, ast.Name) and len(n.elt.args) == 1 \
+                and K.rep_function(n.elt.func.id, f):
+            out.append(n)
     return out
 
 
